@@ -8,6 +8,7 @@ import CasModel.Index
 import CasModel.Blake3
 import CasModel.Wire
 import CasModel.Sim
+import CasModel.Conc
 /-
   Model driver: one request per input line, one response line per request.
   The functions called here are the ones the theorems are about; this file only parses and prints.
@@ -105,6 +106,7 @@ def digest (bs : Bytes) : String := s!"{bs.length}:{toHexString (H bs)}"
 
 def evText : Ev → Option String
   | .mkdir p => some ("mkdir " ++ "/".intercalate (p.map asciiString))
+  | .mkdirTree => some "mkdir-tree"
   | .creat f t => some s!"creat {fidText f} {if t then "trunc" else "plain"}"
   | .write (.staging _) _ => none
   | .write f bs => some s!"write {fidText f} {digest bs}"
@@ -195,7 +197,46 @@ def storeStep (w : World) (toks : List String) : Option (World × String) :=
     | some m =>
       let (w', o) := w.exec (closeScript m) (fun w => { w with handle := none, scan := none, txs := [] })
       some (w', withOutcome armed o "ok")
-  | ["dropstats"] => some ({ w with scan := none }, "ok")
+  | ["dropstats"] =>
+    if w.casDropped then
+      -- last owner of the inner handle goes away now: WalManager::drop, lock released
+      match w.handle with
+      | some m =>
+        let (w', o) := w.exec (closeScript m) (fun w => { w with handle := none, scan := none, txs := [], casDropped := false })
+        some (w', withOutcome armed o "ok")
+      | none => some ({ w with scan := none, casDropped := false }, "ok")
+    else some ({ w with scan := none }, "ok")
+  | ["close_keep_stats"] =>
+    match w.scan with
+    | some _ => some ({ w with casDropped := true, txs := [] }, "ok")
+    | none =>
+      match w.handle with
+      | none => some (w, "ok")
+      | some m =>
+        let (w', o) := w.exec (closeScript m) (fun w => { w with handle := none, scan := none, txs := [] })
+        some (w', withOutcome armed o "ok")
+  | ["tracedrop"] => some ({ w with trace := [] }, "ok")
+  | "recfg" :: rest => (parseCfg rest).map (fun c => ({ w with cfg := c }, "ok"))
+  | ["setsettings", ver, pre, n] => do
+    let ver ← ver.toNat?
+    let n ← n.toNat?
+    let bytes := renderSettings ver (pre == "1") n
+    pure ({ w with disk := { w.disk with files := fset w.disk.files .settings ⟨bytes, bytes.length⟩ } }, "ok")
+  | ["race_open", _] =>
+    -- exactly one of the racing opens wins; the losers only open LOCK
+    let (evs, r) := openScript H w.cfg w.disk w.handle.isSome
+    match r with
+    | .ok (m, sc) =>
+      let (w', _) := w.exec evs (fun w => { w with handle := some m, scan := some sc })
+      some (w', "winners=1 losers_already_opened=true")
+    | .error e => some (w, "err " ++ showOpenErr e)
+  | ["open_other"] =>
+    let (evs, r) := openScript H w.cfg w.disk w.handle.isSome
+    match r with
+    | .error .alreadyOpened =>
+      let (w', _) := w.exec evs id
+      some (w', "err alreadyOpened other_events=creat LOCK")
+    | _ => some (w, "unsupported-open_other-without-owner")
   | ["put", k, chunks] => do
     let k ← parseHex k
     let chunks ← parseChunks chunks
@@ -330,9 +371,114 @@ def storeStep (w : World) (toks : List String) : Option (World × String) :=
   | ["traceset"] =>
     let l := (w.trace.filterMap evText).toArray.qsort (· < ·) |>.toList
     some ({ w with trace := [] }, if l.isEmpty then "_" else ";".intercalate l)
+  | ["plant", c] => do
+    let c ← parseHex c
+    let h := H c
+    let dirs := match relativePath h with
+      | [a, b, _] => [[asciiBytes "cas"], [asciiBytes "cas", a], [asciiBytes "cas", a, b]]
+      | _ => []
+    let d := { w.disk with files := fset w.disk.files (.cas h) ⟨c, c.length⟩,
+                           dirs := w.disk.dirs ++ dirs.filter (fun p => !w.disk.dirs.contains p) }
+    pure ({ w with disk := d }, "ok")
+  | ["orphan_order"] =>
+    match w.scan with
+    | some sc => some (w, showList toHexString sc.orphaned)
+    | none => some (w, "nostats")
   | ["dump"] => some (w, showDump w.disk)
   | ["trace"] => some ({ w with trace := [] }, showTrace w.trace)
   | _ => none
+
+/-! ### concurrent protocol -/
+
+def pcName : Conc.Pc → String
+  | .idle => "idle"
+  | .putReg .. => "put.before_register" | .putRename .. => "put.before_rename"
+  | .apIntents .. => "apply.before_intents" | .apState .. => "apply.before_state"
+  | .apWal .. => "apply.before_wal" | .apUnlink .. => "delete_blobs.before_unlink"
+  | .apUnlocked .. => "apply.after_intents_unlock"
+  | .ckState .. => "checkpoint.before_state" | .ckWal .. => "checkpoint.before_wal"
+  | .guardDrop .. => "guard_drop.before_intents"
+  | .rmScan .. => "remove.before_scan" | .rrScan .. => "remove_range.before_scan"
+  | .rdLookup .. => "read.before_lookup" | .rdOpened .. => "read.after_open"
+  | .orIntents .. => "orphan.before_intents" | .orState .. => "orphan.before_state"
+  | .orUnlink .. => "orphan.before_unlink" | .orUnlocked .. => "orphan.after_unlock"
+
+def resText : Conc.Res → String
+  | .ok => "ok" | .bool b => s!"bool_{b}" | .count n => s!"count_{n}" | .absent => "absent"
+  | .found c => s!"found_{toHexString c}" | .missing => "err_missing"
+  | .cleaned d s => s!"cleaned_{d}_{s}" | .panic => "panic"
+
+def shortD (s : String) : String := toHexString ((H s.toUTF8.toList).take 4)
+
+def parseCOp (s : String) : Option Conc.COp :=
+  match s.splitOn ":" with
+  | ["put", k, c] => do
+    let k ← parseHex k
+    let cs ← parseChunks c
+    pure (.put k cs.flatten)
+  | ["abort", k, c] => do
+    let k ← parseHex k
+    let cs ← parseChunks c
+    pure (.abort k cs.flatten)
+  | ["remove", k] => (parseHex k).map .remove
+  | ["rrange", lo, hi] => do
+    let lo ← parseLo lo
+    let hi ← parseHi hi
+    pure (.removeRange lo hi)
+  | ["get", k] => (parseHex k).map .get
+  | ["ckpt"] => some .checkpoint
+  | ["cleanup", hs] => (parseList parseHex hs).map .cleanup
+  | _ => none
+
+def concObs (sh : Conc.Shared) : String :=
+  let mask := (if sh.lockIntents.isSome then 1 else 0) + (if sh.lockState.isSome then 2 else 0)
+  let files := ((sh.cas.map (·.1)).toArray.qsort (fun a b => bytesLt a b)).toList
+  let casD := shortD (";".intercalate (files.map toHexString))
+  let idxD := if sh.lockState.isNone then
+      shortD (";".intercalate (sh.idx.map.map (fun (k, i) => s!"{toHexString k}:{toHexString i.hash}:{i.size}")))
+    else "L"
+  let protD := if sh.lockIntents.isNone then
+      let bk := (sh.byKey.toArray.qsort (fun a b => sh.kind.lt a.1 b.1)).toList
+      let pr := (sh.prot.toArray.qsort (fun a b => bytesLt a.1 b.1)).toList
+      shortD (";".intercalate (bk.map (fun (k, h) => s!"{toHexString k}:{toHexString h}")) ++ "|" ++
+              ";".intercalate (pr.map (fun (h, c) => s!"{toHexString h}:{c}")))
+    else "L"
+  let dangling := sh.lockState.isNone && sh.idx.map.any (fun (_, i) => (Conc.casGet sh.cas i.hash).isNone)
+  s!"{mask}:{idxD}:{casD}:{protD}" ++ (if dangling then ":DANGLING" else "")
+
+def concRun (s : Conc.Sys) (sched : List Nat) : Conc.Sys × List String :=
+  let rec go (s : Conc.Sys) (sched : List Nat) (acc : List String) : Conc.Sys × List String :=
+    match sched with
+    | [] => (s, acc.reverse)
+    | t :: ts =>
+      match Conc.step H s t with
+      | none => (s, (s!"{t}:BLOCKED" :: acc).reverse)
+      | some s' =>
+        let th := s'.threads[t]?.getD { ops := [] }
+        let wh := match th.pc, th.ops with
+          | .idle, [] => "done"
+          | pc, _ => pcName pc
+        let last := match th.results.getLast? with | some r => shortD (resText r) | none => "-"
+        go s' ts (s!"{t}:{wh}:{th.results.length}:{last}:{concObs s'.sh}" :: acc)
+  go s sched []
+
+def concStep (w : World) (toks : List String) : Option String := do
+  let m ← w.handle
+  match toks with
+  | schedTok :: progs =>
+    let schedS ← (if schedTok.startsWith "sched=" then some (schedTok.drop 6).toString else none)
+    let sched ← (if schedS.isEmpty then some [] else (schedS.splitOn ",").mapM String.toNat?)
+    let programs ← progs.mapM (fun p => (p.splitOn ";").mapM parseCOp)
+    let sh : Conc.Shared := { kind := m.cfg.kind, N := m.cfg.N, idx := m.idx, next := m.next,
+                              cas := (casFiles w.disk).map (fun (h, f) => (h, f.data)) }
+    let s0 : Conc.Sys := { sh := sh, threads := programs.map (fun ops => { ops := ops }) }
+    let (s1, obs) := concRun s0 sched
+    let res := "/".intercalate (s1.threads.map (fun th => ",".intercalate (th.results.map resText)))
+    let files := ((s1.sh.cas.map (·.1)).toArray.qsort (fun a b => bytesLt a b)).toList
+    let refd := ((refdHashes s1.sh.idx.map).toArray.qsort (fun a b => bytesLt a b)).toList
+    let exact := if files == refd then "EXACT" else "INEXACT"
+    pure (" | ".intercalate (obs ++ [s!"final:{res}:{concObs s1.sh}:{exact}"]))
+  | [] => none
 
 def step (st : DState) (line : String) : DState × String :=
   match line.trimAscii.toString.splitOn " " with
@@ -447,6 +593,10 @@ def step (st : DState) (line : String) : DState × String :=
     | some n => ({ st with idx := recomputeStats st.idx n }, "ok")
     | none => (st, "bad-op")
   | ["idx_obs"] => (st, showIdxObs st.idx)
+  | "conc" :: rest =>
+    match concStep st.w rest with
+    | some r => (st, r)
+    | none => (st, "bad-op")
   | toks =>
     match storeStep st.w toks with
     | some (w', r) => ({ st with w := w' }, r)
